@@ -410,6 +410,18 @@ K_AYREGS = dict(name="K-core::ay-restore", package="rustzx-core", features="full
                 assumptions=CORE_ASSUME + ["libm::sqrt stubbed while constructing the controller; the real aym::AymPrecise::write_register runs"],
                 timeout=3000)
 
+K_PAGING_TWIN = dict(name="K-core::paging-twin", package="rustzx-core", features="full", harnesses=["write_7ffd_paging_twin"],
+                     functions={"write_7ffd_paging_twin": ["ZXController::write_7ffd", "ZXController::restore_7ffd", "ZXMemory::remap", "ZXMemory::get_page"]},
+                     assumptions=CORE_ASSUME + ["libm::sqrt stubbed while constructing the controller"], timeout=3000)
+
+# Verus obligations that have a bit-precise Kani twin: (unit, function, regex on the failed clause) -> harness.
+# If Verus fails such an obligation and the twin PASSES in the same run, the failure is prover incompleteness
+# (e.g. a harmless rewrite that needs a by(bit_vector) hint) and is reported as undecided, never as a violation;
+# if the twin fails too, both are reported and the twin supplies the counterexample.
+VERUS_TWINS = [
+    ("ctl", "write_7ffd", r"inv\(\)|inv_l\(", "write_7ffd_paging_twin"),
+]
+
 K_TRAP = dict(name="K-core::trap", package="rustzx-core", features="full", harnesses=["pc_callback_trap"],
               functions={"pc_callback_trap": ["ZXController::pc_callback"]}, assumptions=CORE_ASSUME)
 K_BREAK = dict(name="K-core::breakpoint", package="rustzx-core", features="full", harnesses=["pc_callback_breakpoint"],
@@ -633,7 +645,7 @@ PROPS = {
         claim="Deductive proof (Verus): the address helpers are the inverse of the statement's offset formula (bijection lemma); ZXScreen::update changes exactly the shadow cell whose display offset is written; process_clocks draws exactly the blocks the beam passed since the previous call, each pixel = bit 7-(x mod 8) coloured by ink/paper/BRIGHT/FLASH of its attribute (nested loop invariants over a ghost pixel map); new_frame delivers the back buffer and toggles the flash phase every 16 frames; lemmas: a bus write keeps shadow == RAM (invariant K), a full pass over an unchanged shadow yields the standard decode of RAM. write_internal forwards every RAM write through any window to the screen (ghost call log); a syntactic frame obligation requires every behind-the-bus RAM writer to refresh the shadow. Controller side (unit ctl, ghost call logs): every bus wait hands the new in-frame clock to screen.process_clocks, every frame end calls screen.new_frame, and an accepted paging write switches the display to the bank bit 3 selects - nothing else does.",
         note="Assumes host FrameBuffer contract; Box<[T;N]> treated as the owned array; the composition over a frame (K maintained by every writer + process_clocks called with the frame clock from wait_internal + switch_bank selecting bank 5/7) is argued from these contracts, not a single mechanised theorem. Error paths of loaders (partial page write then Err) are not covered. One defect repaired (pokes bypassed the shadow).",
         verus=["screen", "ctl"],
-        kani=[K_MACHINE, K_REFRESH],
+        kani=[K_MACHINE, K_REFRESH, K_PAGING_TWIN],
         scans=[scan_ram_writers_refresh],
         explanation="screen decode: leaf inverses, update/process_clocks/new_frame contracts over ghost pixel maps, invariant K lemmas",
     ),
@@ -692,7 +704,7 @@ PROPS = {
         claim="Deductive proof (Verus, all addresses/values/latch histories by invariant induction) that ZXMemory read/write implement the (page,offset) view, that a write is read back through exactly the windows mapping the same bank, that ROM windows ignore writes, and that write_7ffd maintains the paging invariant map = f(machine, latch) with the lock bit; syntactic frame obligations pin the only callers of remap and the only writers of the latch.",
         note="Assumes: extraction rules; ROM *contents*: the real load_rom_binary_16k_pages (Verus, unit romload) puts the first 16 KiB of the i-th supplied image into ROM page i for every page of the machine and fails (no panic) when images are missing; the embedded default images by Kani rom_case; SNA/SZX loaders reach paging only through write_7ffd (scan).",
         verus=["ctl", "romload"],
-        kani=[K_ROM],
+        kani=[K_ROM, K_PAGING_TWIN],
         scans=[scan_remap_callers, scan_paging_writers],
         explanation="memory map / paging invariant / alias lemma as postconditions of the real ZXMemory and ZXController functions",
         not_mechanised=["induction over histories is the standard argument: every operation preserves inv() (each obligation is proved); the induction itself is not a Verus lemma"],
@@ -702,7 +714,7 @@ PROPS = {
         claim="write side: Verus proof on the extracted real write_io that for every port selecting exactly one device the named device changes as stated and every other device is unchanged, and the extender log grows iff it claims the port; floating_bus_value equals the statement's fetch-window function for all frame clocks. read side: Verus proof on the extracted real read_io, for every port, machine, device presence and every frame clock: a port selecting exactly one device returns that device's value (selected half-rows AND-ed with the tape EAR level on bit 6, mouse ports, AY read-back, Kempston state), the extender's log grows iff it claims the port and its answer is the result, a port no device claims returns the floating-bus byte of the T-state before the last one of the port cycle, and nothing but time changes; the earlier Kani proof on the real controller (all 65536 ports x device presence x device state, two clock situations) is kept as a second engine.",
         note="Assumes: closure postcondition annotation (R-closure) for the extender claim in write_io; in read_io the three-line extender expression `self.io_extender.as_mut().and_then(|e| e.extends_port(port).then(|| e.read(port)))` is replaced by an assumed-contract call (R-opaque: and_then/then with a closure capturing &mut are outside the Verus subset; the expression text is pinned, a change to it makes the run undecided) - the Kani read harness executes the real expression; Kani stubs (sqrt, mixer.process, screen.process_clocks no-ops); ambiguous ports (two devices selected) are outside the statement and unconstrained.",
         verus=["ctl"],
-        kani=[K_READ_IO],
+        kani=[K_READ_IO, K_PAGING_TWIN],
         explanation="port decoding as contracts over the real write_io / read_io",
     ),
     "C04": dict(
